@@ -31,6 +31,7 @@ class FnSpec:
         self.contract = []          # raw lines
         self.closures = {}          # ordinal -> (header, [raw])
         self.loops = {}             # ordinal -> (iter_name|None, [raw])
+        self.opt_loops = set()      # ordinals of `loop N?` annotations (skipped where the loop is gone)
         self.hints = []             # (where, anchor, [raw], optional)
         self.rewrites = []          # (rule, old, new)
         self.twins = []             # (name, [raw])
@@ -183,6 +184,12 @@ def parse_vspec(path):
                 cur_fn.closures[int(m.group(1))] = (m.group(3), body)
             raw_target = body
         elif kw == "loop":
+            # `loop N? …`: an optional loop annotation — where the function has no N-th loop (the loop was replaced by
+            # straight-line code) the annotation is skipped and the function is verified as written
+            mo = re.match(r"(\d+)\?(.*)$", rest)
+            if mo:
+                rest = mo.group(1) + mo.group(2)
+                cur_fn.opt_loops.add(int(mo.group(1)))
             m = re.match(r"(\d+)(\s+iter\s+(\w+))?(\s+pat\s+(\"(?:[^\"\\]|\\.)*\"))?(\s+over\s+(\"(?:[^\"\\]|\\.)*\"))?$", rest)
             if not m:
                 raise SystemExit(f"{path}:{ln}: bad loop directive")
@@ -1147,6 +1154,9 @@ def process_fn(toks, it, fs: FnSpec, qual, ed: Edits, log, unit_in_trait_impl):
             over = lspec[2] if len(lspec) > 2 else None
             pat = lspec[3] if len(lspec) > 3 else None
             if n > len(lp):
+                if n in fs.opt_loops:
+                    log.setdefault("skipped_loops", []).append({"fn": qual, "loop": n, "reason": f"the function has {len(lp)} loops; the optional annotation is skipped"})
+                    continue
                 raise LostAnchor(f"{qual}: loop {n} not found ({len(lp)} loops)")
             l = lp[n - 1]
             if itname:
